@@ -58,7 +58,7 @@ def expected : List Expected := [
   ⟨⟨"interp", "trace.go", "*tracer.expr", "panic", "err", 1⟩,
     "UNREACHABLE-INTERNAL: printer.Print on a node of a parsed program into a bytes.Buffer; its errors are write errors or unsupported nodes, neither possible here"⟩,
   ⟨⟨"interp", "vars.go", "*Runner.assignVal", "panic", "\"unexpected conversion of kind %d\"", 1⟩,
-    "REACHABLE: C28-nameref-empty-append — `declare -n r=; r+=(1)`: a nameref resolving to the empty name is kept unresolved by the callers (theorem append_kind_counterexample). Otherwise unreachable by the invariant 'Variable.Resolve never returns Kind NameRef' (theorems resolve_never_nameref, append_kind_partial), which is tied by the `resolve` stream and probed on the variables left by every search program"⟩,
+    "UNREACHABLE-INTERNAL, by the model's invariants: the switch has an arm for every kind a stored variable can have, NameRef included (a nameref that did not resolve, e.g. an empty target, fix 3a8d3f5); a resolved variable is never a nameref (theorem resolve_never_nameref, tied by the `resolve` stream and probed on the variables left by every search program); KeepValue is never stored (theorem append_kind_safe)"⟩,
   ⟨⟨"interp", "vars.go", "*overlayEnviron.Set", "assert", "o.parent.(expand.WriteEnviron)", 1⟩,
     "UNREACHABLE-INTERNAL: the branch is taken only for funcScope overlays, which Runner.call creates with r.writeEnv (always a WriteEnviron) as parent"⟩
 ]
